@@ -27,6 +27,38 @@
 (*                                                                         *)
 (* The property is stated declaratively at the end (Allowed*, EffectOf,     *)
 (* OnlyAuthenticFresh ...), independently of the cascade.                   *)
+(*                                                                         *)
+(* Backend faults (follow-up b20c).  Every chain query of the funding       *)
+(* validation (GetBlockHash / GetBlock / GetUtxo) has three kinds of        *)
+(* outcome, chosen by the environment through the attribute `fund`: it      *)
+(* succeeds ("ok"), it answers negatively (FundNegative: no such block /    *)
+(* height, no such output, another script, spent) or it FAILS without an    *)
+(* answer (FundFault: "hashfault", "blockfault" - the lookup of the funding *)
+(* transaction failed; UtxoFault: "utxofault", "utxonotfound" - GetUtxo     *)
+(* failed with something else than "spent").  A fault is never an           *)
+(* acceptance: the announcement is rejected (reject cache, so the same peer *)
+(* is not retried; another peer's copy is validated afresh) and, as the     *)
+(* code does, a failed utxo query also records the scid in the closed-scid  *)
+(* index (named outcome RejectFault; a closed scid is refused before any    *)
+(* validation: RejectClosed).                                               *)
+(*                                                                         *)
+(* Chain events (follow-up b20c).  The graph also changes when the chain    *)
+(* does (graph.Builder.networkHandler on graph/db): Connect(S) is a block   *)
+(* at height tip+1 whose transactions spend the funding outputs of the      *)
+(* channels S (PruneGraph: those channels leave the graph, and with them    *)
+(* every node that is left without a channel); Disconnect is the stale      *)
+(* block at height `tip` (DisconnectBlockAtHeight: every channel confirmed  *)
+(* at or above it leaves the graph; the nodes stay until the next block     *)
+(* connects).  `verts` are the node vertices the store holds (announced or  *)
+(* shell); `reorg` says that a block was disconnected and none has          *)
+(* connected since.  Channel c is confirmed at height 100 + c; the tip      *)
+(* starts at 103.  "has a known channel" is HasChan - NOT membership in     *)
+(* verts: a node announcement for a vertex that has lost its last channel   *)
+(* must be dropped, whatever the store still holds.  (lnd at the pinned      *)
+(* commit decides by the vertex: between a stale block and the next          *)
+(* connected block it applies such an announcement - finding F30, key        *)
+(* gossip:builder:reorg-window:*; those schedules are generated apart, see   *)
+(* GossipSweep WindowProbes and GossipGen Window.)                           *)
 (***************************************************************************)
 EXTENDS Naturals, Sequences, FiniteSets, TLC
 
@@ -68,6 +100,25 @@ ZOMsg(c, keys) ==
    bad |-> "-", fund |-> "-", fields |-> "-", peer |-> "-"]
 ZOUniverse == {ZOMsg(c, k) : c \in Chans, k \in {"both", "n1", "n2"}}
 ZKeys(mode) == CASE mode = "both" -> {"n1", "n2"} [] mode = "n1" -> {"n1"} [] mode = "n2" -> {"n2"}
+
+(* Chain events as schedule entries: "BC" connects a block spending the      *)
+(* funding outputs of the channels coded in c (bit c-1), "BD" disconnects   *)
+(* the block at the tip.                                                    *)
+Height(c) == 100 + c
+Tip0   == 103
+MinTip == 100
+MaxTip == 104
+BCMsg(k) ==
+  [t |-> "BC", c |-> k, n |-> 0, d |-> 0, ts |-> 0, fee |-> 0, signer |-> "-",
+   bad |-> "-", fund |-> "-", fields |-> "-", peer |-> "-"]
+BDMsg == [BCMsg(0) EXCEPT !.t = "BD"]
+SpentOf(k) == {c \in {1, 2} : (k \div (IF c = 1 THEN 1 ELSE 2)) % 2 = 1}
+ChainUniverse == {BCMsg(k) : k \in {j \in 0..3 : SpentOf(j) \subseteq Chans}} \cup {BDMsg}
+
+(* What the chain backend says about the funding output.                   *)
+FundNegative(f) == f \in {"noblock", "nohash", "noout", "wrongkeys", "halfwrongkeys", "spent"}
+FundFault(f)    == f \in {"hashfault", "blockfault"}
+UtxoFault(f)    == f \in {"utxofault", "utxonotfound"}
 
 (* The message universe: valid messages and messages with ONE defect.      *)
 CAUniverse == {m \in {CAMsg(c, b, f, p) : c \in Chans, b \in CABad, f \in Funds, p \in Peers} :
@@ -119,18 +170,23 @@ VARIABLES chans,    \* channels in the graph
           rejects,  \* reject cache: set of <<scid, peer>>
           relayed,  \* (wire) messages handed to the broadcast batch
           nmsg,     \* messages received so far (bounds model checking only)
-          last      \* outcome of the last step: [kind, res]
+          last,     \* outcome of the last step: [kind, res]
+          tip,      \* height of the best block the graph builder has processed
+          verts,    \* node vertices held by the graph store (announced or shell)
+          reorg     \* a block was disconnected and none has connected since
 
-vars  == <<chans, pol, nodes, stash, zombie, zkeys, closed, rejects, relayed, nmsg, last>>
+vars  == <<chans, pol, nodes, stash, zombie, zkeys, closed, rejects, relayed, nmsg, last, tip, verts, reorg>>
 Graph == <<chans, pol, nodes>>
 
 Init == /\ chans = {} /\ pol = [k \in Keys |-> NoPol] /\ nodes = [n \in Nodes |-> 0]
         /\ stash = [c \in Chans |-> <<>>] /\ zombie = {} /\ zkeys = [c \in Chans |-> {}]
         /\ closed = {} /\ rejects = {}
         /\ relayed = {} /\ nmsg = 0 /\ last = [kind |-> "Init", res |-> "-"]
+        /\ tip = Tip0 /\ verts = {} /\ reorg = FALSE
 
 Out(kind, res) == last' = [kind |-> kind, res |-> res]
-HasChan(n) == \E c \in chans : n \in Ends(c)
+HasChanIn(cs, n) == \E c \in cs : n \in Ends(c)
+HasChan(n) == HasChanIn(chans, n)
 
 \* nothing but the outcome changes
 Nop(kind, res) == /\ Out(kind, res)
@@ -145,7 +201,15 @@ RecvCA(m) ==
   /\ IF <<m.c, m.peer>> \in rejects THEN Nop("RecentlyRejected", "err")
      ELSE IF ChainMismatch(m) THEN RejectCache(m, "RejectChain")
      ELSE IF m.c \in chans \cup zombie THEN Nop("IgnoreKnown", "ok")     \* before any validation
+     ELSE IF m.c \in closed THEN Nop("RejectClosed", "err")              \* closed-scid index (ban score)
      ELSE IF CASigsValid(m) # AllSigs THEN RejectCache(m, "RejectSig")
+     ELSE IF FundFault(m.fund) THEN RejectCache(m, "RejectFault")         \* no answer: never an acceptance
+     ELSE IF UtxoFault(m.fund)
+       THEN \* GetUtxo failed without saying "spent": rejected; the code also records the scid as closed
+            /\ Out("RejectFault", "err")
+            /\ rejects' = rejects \cup {<<m.c, m.peer>>}
+            /\ closed' = closed \cup {m.c}
+            /\ UNCHANGED <<chans, pol, nodes, stash, zombie, zkeys, relayed>>
      ELSE IF m.fund # "ok"
        THEN \* validateFundingTransaction: zombie (and closed if spent), reject cache, ban score
             /\ Out("RejectFunding", "err")
@@ -219,6 +283,9 @@ RecvNA(m) ==
 
 Recv(m) == /\ nmsg' = nmsg + 1
            /\ RecvCA(m) \/ RecvCU(m) \/ RecvNA(m)
+           \* a new channel brings (shell) vertices for both of its ends
+           /\ verts' = verts \cup UNION {Ends(c) : c \in chans' \ chans}
+           /\ UNCHANGED <<tip, reorg>>
 
 (* Environment: a channel that is not in the graph is put into the zombie  *)
 (* index with node keys recorded, as zombie pruning leaves it (both keys,   *)
@@ -229,9 +296,42 @@ Zombify(c, mode) ==
   /\ zkeys' = [zkeys EXCEPT ![c] = ZKeys(mode)]
   /\ Out("Zombify", "-")
   /\ nmsg' = nmsg + 1
-  /\ UNCHANGED <<chans, pol, nodes, stash, closed, rejects, relayed>>
+  /\ UNCHANGED <<chans, pol, nodes, stash, closed, rejects, relayed, tip, verts, reorg>>
+
+(* Environment: the chain.  graph.Builder.networkHandler, one action per   *)
+(* notification.                                                            *)
+KeepPol(cs) == [k \in Keys |-> IF k[1] \in cs THEN pol[k] ELSE NoPol]
+\* a block at height tip + 1 spending the funding outputs of S: updateGraphWithClosedChannels -> PruneGraph
+\* (closed channels deleted - not zombies -, then every vertex without a channel is swept, in one transaction)
+Connect(S) ==
+  /\ tip < MaxTip
+  /\ LET cs == chans \ S
+         vs == {n \in verts : HasChanIn(cs, n)} IN
+     /\ chans' = cs
+     /\ pol' = KeepPol(cs)
+     /\ verts' = vs
+     /\ nodes' = [n \in Nodes |-> IF n \in vs THEN nodes[n] ELSE 0]
+  /\ tip' = tip + 1 /\ reorg' = FALSE
+  /\ Out("Connect", "-")
+  /\ nmsg' = nmsg + 1
+  /\ UNCHANGED <<stash, zombie, zkeys, closed, rejects, relayed>>
+\* the block at the tip is stale: DisconnectBlockAtHeight deletes every channel confirmed at or above it;
+\* the vertices (and their stored announcements) stay until the next block connects
+Disconnect ==
+  /\ tip > MinTip
+  /\ LET cs == {c \in chans : Height(c) < tip} IN
+     /\ chans' = cs
+     /\ pol' = KeepPol(cs)
+  /\ tip' = tip - 1 /\ reorg' = TRUE
+  /\ Out("Disconnect", "-")
+  /\ nmsg' = nmsg + 1
+  /\ UNCHANGED <<nodes, verts, stash, zombie, zkeys, closed, rejects, relayed>>
+
 \* one entry of a schedule
-Step(m) == IF m.t = "ZO" THEN Zombify(m.c, m.signer) ELSE Recv(m)
+Step(m) == IF m.t = "ZO" THEN Zombify(m.c, m.signer)
+           ELSE IF m.t = "BC" THEN Connect(SpentOf(m.c))
+           ELSE IF m.t = "BD" THEN Disconnect
+           ELSE Recv(m)
 
 RemoveAt(s, i) == [j \in 1..(Len(s) - 1) |-> IF j < i THEN s[j] ELSE s[j + 1]]
 
@@ -245,10 +345,11 @@ ReplayOne(c, i) ==
      /\ pol' = r.pol
      /\ relayed' = IF r.app THEN relayed \cup {Wire(m)} ELSE relayed
      /\ stash' = [stash EXCEPT ![c] = RemoveAt(@, i)]
-  /\ UNCHANGED <<chans, nodes, zombie, zkeys, closed, rejects, nmsg>>
+  /\ UNCHANGED <<chans, nodes, zombie, zkeys, closed, rejects, nmsg, tip, verts, reorg>>
 
 Next == \/ \E m \in Universe : Recv(m)
         \/ \E z \in ZOUniverse : Zombify(z.c, z.signer)
+        \/ \E b \in ChainUniverse : Step(b)
         \/ \E c \in Chans : \E i \in 1..Len(stash[c]) : ReplayOne(c, i)
 
 Spec == Init /\ [][Next]_vars
@@ -274,28 +375,52 @@ EffectOf(m) ==
     [] m.t = "CU" -> <<chans, [pol EXCEPT ![<<m.c, m.d>>] = [ts |-> m.ts, fee |-> m.fee, mx |-> Mx(m)]], nodes>>
     [] m.t = "NA" -> <<chans, pol, [nodes EXCEPT ![m.n] = m.ts]>>
 
+\* What a chain event may do to the graph: channels leave it (never enter), the policies of the channels
+\* that stay and the announcements of the nodes that keep a channel are untouched, an announcement
+\* disappears only together with the node's last channel, nothing is relayed.
+ChainShrink ==
+  /\ tip' # tip
+  /\ chans' \subseteq chans
+  /\ \A k \in Keys : pol'[k] = IF k[1] \in chans' THEN pol[k] ELSE NoPol
+  /\ \A n \in Nodes : /\ nodes'[n] \in {nodes[n], 0}
+                      /\ HasChanIn(chans', n) => nodes'[n] = nodes[n]
+  /\ relayed' = relayed
+
 \* "Anything else leaves the graph unchanged and is not relayed to peers."
 OnlyAuthenticFresh ==
   [][Graph' # Graph =>
-        \E m \in Universe : /\ Allowed(m) /\ Graph' = EffectOf(m)
-                            /\ relayed' \subseteq relayed \cup {Wire(m)}]_vars
-NoRelayWithoutApply == [][relayed' # relayed => Graph' # Graph]_vars
+        \/ ChainShrink
+        \/ \E m \in Universe : /\ Allowed(m) /\ Graph' = EffectOf(m)
+                               /\ relayed' \subseteq relayed \cup {Wire(m)}
+                               /\ tip' = tip]_vars
+NoRelayWithoutApply == [][relayed' # relayed => Graph' # Graph /\ tip' = tip]_vars
+\* whatever is handed to the broadcast is authentic and its effect is in the graph at that moment
+RelayOnlyApplied ==
+  [][\A m \in relayed' \ relayed :
+       CASE m.t = "CA" -> AllowedCA(m) /\ m.c \in chans'
+         [] m.t = "CU" -> /\ m.c \in chans' /\ CUSigValid(m) /\ CUFieldsOk(m)
+                          /\ pol'[<<m.c, m.d>>].ts >= m.ts /\ m.ts > 0
+         [] m.t = "NA" -> NASigValid(m) /\ nodes'[m.n] >= m.ts /\ m.ts > 0 /\ HasChanIn(chans', m.n)]_vars
 
-\* policy and node timestamps strictly increase
-PolicyMonotone == [][\A k \in Keys : pol'[k] # pol[k] => pol'[k].ts > pol[k].ts]_vars
-NodeMonotone   == [][\A n \in Nodes : nodes'[n] # nodes[n] => nodes'[n] > nodes[n]]_vars
-ChannelsStay   == [][chans \subseteq chans']_vars
+\* policy and node timestamps strictly increase while the channel / the node's channels stay
+PolicyMonotone == [][\A k \in Keys : pol'[k] # pol[k] => pol'[k].ts > pol[k].ts \/ k[1] \notin chans']_vars
+NodeMonotone   == [][\A n \in Nodes : nodes'[n] # nodes[n] =>
+                        nodes'[n] > nodes[n] \/ (nodes'[n] = 0 /\ ~HasChanIn(chans', n))]_vars
+\* channels leave the graph only when the chain moves
+ChannelsStay   == [][tip' = tip => chans \subseteq chans']_vars
 
-\* a node announcement is stored only for a node with a known channel; a policy only for a known channel
-NodeHasChannel == \A n \in Nodes : nodes[n] > 0 => HasChan(n)
+\* a node announcement is stored only for a vertex of the store; outside a reorganisation (a block disconnected,
+\* none connected since) every vertex - hence every stored announcement - belongs to a node with a known channel
+NodeHasChannel == /\ \A n \in Nodes : nodes[n] > 0 => n \in verts
+                  /\ \A c \in chans : Ends(c) \subseteq verts
+                  /\ ~reorg => \A n \in verts : HasChan(n)
 PolicyHasChannel == \A k \in Keys : pol[k].ts > 0 => k[1] \in chans
-\* everything relayed is an authentic message whose effect is (or was) in the graph
+\* everything relayed is an authentic message (its effect was in the graph when it was relayed: RelayOnlyApplied)
 RelayedAuthentic ==
   \A m \in relayed :
-     CASE m.t = "CA" -> AllowedCA(m) /\ m.c \in chans
-       [] m.t = "CU" -> /\ m.c \in chans /\ CUSigValid(m) /\ CUFieldsOk(m)
-                        /\ pol[<<m.c, m.d>>].ts >= m.ts /\ m.ts > 0
-       [] m.t = "NA" -> NASigValid(m) /\ nodes[m.n] >= m.ts /\ m.ts > 0 /\ HasChan(m.n)
+     CASE m.t = "CA" -> AllowedCA(m)
+       [] m.t = "CU" -> CUSigValid(m) /\ CUFieldsOk(m) /\ m.ts > 0
+       [] m.t = "NA" -> NASigValid(m) /\ m.ts > 0
 
 \* a zombie entry disappears only through a fresh update signed by the node that owns the update's
 \* direction, whose key is recorded with the entry; that update is then waiting in the stash
@@ -306,10 +431,12 @@ ZombieOnlyByOwner ==
              m.t = "CU" /\ m.c = c /\ m.ts > 0 /\ CUSigValid(m) /\ Own(m.d) \in zkeys[c]]_vars
 \* structure
 ZombieNotInGraph == zombie \cap chans = {}
-ClosedIsZombie   == \A c \in closed : c \in zombie /\ zkeys[c] = {}
+\* a scid recorded as closed never is (nor becomes) a channel of the graph
+ClosedNotInGraph == closed \cap chans = {}
 StashOnlyUpdates == \A c \in Chans : \A i \in 1..Len(stash[c]) : stash[c][i].t = "CU" /\ stash[c][i].c = c
 TypeOK == /\ chans \subseteq Chans /\ zombie \subseteq Chans /\ closed \subseteq Chans
           /\ rejects \subseteq Chans \X Peers
           /\ \A k \in Keys : pol[k].ts \in 0..MaxTs
           /\ \A n \in Nodes : nodes[n] \in 0..MaxTs
+          /\ tip \in MinTip..MaxTip /\ verts \subseteq Nodes /\ reorg \in BOOLEAN
 =============================================================================
